@@ -121,6 +121,9 @@ def call_builtin(ex, name, args, kwargs, node):
             hint = ex.frame.get('var_types', {})
             return V(TTuple([]), [])   # empty, typed on assignment via var_types
         a = args[0]
+        if isinstance(a, E.MapIterV) and isinstance(a.m.ty, TMap) and a.kind in ('values', 'keys'):
+            # set(m.values()) / set(m.keys()): kept as the view itself -- the only thing done with it is a membership test (x in it iff some key maps to x)
+            return a
         if isinstance(a, E.IterV): a = ex.materialize(a)
         a = ex.val(a)
         if isinstance(a.ty, TSet): return a
